@@ -250,3 +250,14 @@ claim("C49", JITJ,
       "reference CPU's final state.",
       "TLC; an EXCEPT_ACCESS_VIOL handler that stops the run is installed; gcc backend decides, the python backend's behaviour is a "
       "recorded known finding", "DESIGN.md 5/C49", "JitJudge")
+
+claim("C48", ("TLA+ specification of what every allocator result must satisfy (Alloc.tla: nondeterministic placement, coverage by mapped "
+              "pages, disjointness and distinctness from live allocations); request histories executed on the real environments are "
+              "validated by TLC event by event (trace validation with the returned address and page list bound from the log)"),
+      "Alloc.tla leaves the placement free and constrains each result: [a, a+n) covered by mapped pages, no overlap with and an "
+      "address distinct from every live allocation (an empty allocation occupies its address). Request histories - every pair "
+      "(thorough: triple) and random mixes up to 8 of {heap.vm_alloc, VirtualAlloc, HeapAlloc, malloc} resp. {mmap, mmap with hint, "
+      "mmap MAP_FIXED at a free address, brk} x sizes {0, 1, 0xfff, 0x1000, 0x1001} - are executed on a python-backend x86-32 "
+      "jitter / LinuxEnvironment and validated by TLC.",
+      "TLC; x86-32 environments only; frees and MAP_FIXED over an existing mapping are not exercised; Windows and Linux allocators are "
+      "not mixed in one process", "DESIGN.md 5/C48", "Alloc")
